@@ -1317,6 +1317,10 @@ static bool resolve(const ACmd& a, uint64_t n, uint64_t limit, CCmd& c)
         c.b = count();
         return true;
     case INSERT_IN:
+        // element-by-element insertion is quadratic in view and model: bounded so that huge buffers stay affordable
+        c.a = pos(a.psel, a.pfrac, n);
+        c.data = cyc(a.seed, std::min<uint64_t>(count(), 300), false);
+        return true;
     case INSERT_FWD:
     case INSERT_PTR:
         c.a = pos(a.psel, a.pfrac, n);
@@ -1411,7 +1415,10 @@ static ACase decode_case(const std::vector<unsigned>& h, const std::vector<std::
     else c.cap = static_cast<int>(65530 + h[2] % 10);
     const unsigned il = h[3] % 7;
     for(unsigned i = 0; i < il; i++) c.init.push_back(byte_of(h[4] + i * 7919u));
-    for(const auto& r : rows) c.cmds.push_back(decode_cmd(r));
+    // every step on a 64 KiB buffer costs several passes over it: at most 40 commands there
+    const size_t maxcmds = c.cap > 60000 ? 40 : rows.size();
+    for(const auto& r : rows)
+        if(c.cmds.size() < maxcmds) c.cmds.push_back(decode_cmd(r));
     return c;
 }
 
